@@ -257,6 +257,55 @@ pub fn run(report: &Report, thorough: bool) -> Evidence {
                         events.fetch_add(evs.len() as u64, Ordering::Relaxed);
                     }
                 }
+                // R7: a word that ENDS IN A COLON (the colon is part of the word for the splitter; the key of the store entry ends in
+                // it). The colon key hands the caller's selection byte on, so the list of "word:" is read after a backspace: the
+                // text, a colon and one more letter are typed and the letter removed. A non-preselected candidate is committed there
+                // and must be recalled along the same route in the same context and in a new one over the written store.
+                if wi == 0 && !text.contains(':') && !text.contains('`') {
+                    let route = format!("{}:a", text);
+                    let reach = |ctx: &mut Ctx, evs: &mut Vec<Ev>| -> Option<Rend> {
+                        type_text(ctx, &route, evs).ok().flatten()?;
+                        evs.push(Ev::Bs);
+                        match ctx.apply(&Ev::Bs) {
+                            Ok(Out::Sugg(r)) => Some(r),
+                            _ => None,
+                        }
+                    };
+                    if histgraph::fresh(&mut ctx, &files).is_ok() {
+                        let mut evs: Vec<Ev> = vec![];
+                        if let Some(rb) = reach(&mut ctx, &mut evs) {
+                            if rb.len() > 1 {
+                                let i = (rb.sel() + 1) % rb.len();
+                                let chosen = rb.items()[i].clone();
+                                evs.push(Ev::Commit(i));
+                                commits.fetch_add(1, Ordering::Relaxed);
+                                if ctx.apply(&Ev::Commit(i)).is_ok() {
+                                    learn_recall.fetch_add(1, Ordering::Relaxed);
+                                    let mut e1 = evs.clone();
+                                    if let Some(r) = reach(&mut ctx, &mut e1) {
+                                        let got = r.items().get(r.sel()).cloned();
+                                        if got.as_ref() != Some(&chosen) {
+                                            report.add(Violation::new("C09", "not-recalled", "not-recalled:same-context:word-ending-in-colon").opts(&o).events(&e1).feat("word", word.clone()).feat("route", "word-ending-in-colon").feat("chosen_kind", if chosen == format!("{}:", text) { "raw-text" } else { "other" }).detail(format!("committed {:?} (index {}) for {:?}; reached again in the same context: preselected {:?} in {:?}", chosen, i, format!("{}:", text), got, r.items())));
+                                        }
+                                    }
+                                    let _ = ctx.apply(&Ev::Finish);
+                                    let mut e2 = evs.clone();
+                                    e2.push(Ev::Restart);
+                                    new_ctx_loads.fetch_add(1, Ordering::Relaxed);
+                                    if let Ok(mut c2) = Ctx::new(&o) {
+                                        c2.with_pre = false;
+                                        if let Some(r) = reach(&mut c2, &mut e2) {
+                                            let got = r.items().get(r.sel()).cloned();
+                                            if got.as_ref() != Some(&chosen) {
+                                                report.add(Violation::new("C09", "not-recalled", "not-recalled:after-restart:word-ending-in-colon").opts(&o).events(&e2).feat("word", word.clone()).feat("route", "word-ending-in-colon").feat("chosen_kind", if chosen == format!("{}:", text) { "raw-text" } else { "other" }).detail(format!("committed {:?} (index {}) for {:?}; after a restart: preselected {:?} in {:?}", chosen, i, format!("{}:", text), got, r.items())));
+                                            }
+                                        }
+                                    }
+                                }
+                            }
+                        }
+                    }
+                }
                 for i in 0..n {
                     for (ii, inter) in interleave.iter().enumerate() {
                         // other learning commits only for the bare form and the first wrapping (fixed sub-list)
